@@ -16,6 +16,8 @@ type DFSSpec struct {
 	Name  string
 	Bound int // deviation bound (preemptions + early timers + non-default environment answers); explored iteratively 0..Bound
 	Run   vsched.Options
+	// Before runs before every execution in pass-through mode (native set-up such as handshakes).
+	Before func()
 	// Body builds a fresh world and runs the scenario as main thread 0 (spawning others with vsched.GoMain).
 	Body func()
 	// Check judges one finished execution; it returns a violation signature ("" = fine) and a detail.
@@ -81,6 +83,9 @@ func RunDFS(u *U, spec DFSSpec) bool {
 		}
 		ro := spec.Run
 		ro.Prefix = r.Schedule
+		if spec.Before != nil {
+			spec.Before()
+		}
 		s := vsched.Run(ro, spec.Body)
 		sig, detail := spec.judge(s)
 		fmt.Printf("REPLAY scenario=%s schedule=%v\n  signature=%q\n  detail=%s\n  observation=%s\n", spec.Name, r.Schedule, sig, detail, spec.obs(s))
@@ -97,7 +102,7 @@ func RunDFS(u *U, spec DFSSpec) bool {
 		infra := ""
 		st := vsched.Explore(vsched.ExploreOpt{
 			Bound: bound, Run: spec.Run, Shard: spec.Shard, NShards: spec.NShards,
-			MaxExecs: spec.MaxExecs, Deadline: u.Deadline,
+			MaxExecs: spec.MaxExecs, Deadline: u.Deadline, Before: spec.Before,
 		}, spec.Body, func(s *vsched.Sched) bool {
 			if s.Diverged != "" {
 				infra = s.Diverged
@@ -129,6 +134,9 @@ func RunDFS(u *U, spec DFSSpec) bool {
 			for i := 0; i < 5; i++ {
 				ro := spec.Run
 				ro.Prefix = choices
+				if spec.Before != nil {
+					spec.Before()
+				}
 				s := vsched.Run(ro, spec.Body)
 				sig, _ := spec.judge(s)
 				if sig != vsig || s.Diverged != "" {
